@@ -157,6 +157,19 @@ claim('C15',
       'NOT claimed: the second sentence (watch delivery, replay vs live events, cancellation) - real goroutine/channel concurrency, outside the '
       'sequential executor (DESIGN.md section 7); v3 stores not yet covered. atomix primitive contract assumed. Trusted: go/ssa, executor, z3.',
       'SSA symbolic execution + SMT (z3) over stub primitives', 'DESIGN.md 6/C15, 7')
-NA['C20'] = ('not built in this session: the v3 transaction/configuration/mastership reconcilers need their own flat-store harness (v3 API types, '
-             'per-target logs) analogous to harness/v2; planned as the same transition-relation extraction + BMC with the TLA+ Order/Consistency '
-             'predicates as monitors (DESIGN.md 6/C20)')
+claim('C20',
+      'The transition relation of the REAL v3 transaction Reconciler (Reconcile -> reconcileChange/reconcileRollback -> commitChange, applyChange, '
+      'commitRollback, applyRollback, applyValues, addDeleteChildren) is extracted from SSA over flat v3 transaction/configuration stores '
+      '(harness/v3) with the environment actions of spec/Transaction.tla (AppendChange, RollbackChange(i)), target connect/restart and a crash '
+      'parameter that stops the process after the k-th write of a step (partial writes between the two records). Bounded model checking '
+      'decides, for every schedule up to the depth: the Consistency clauses of spec/Config.tla (committed / applied / device values of the '
+      'latest committed / applied revision), the Order monitors (change commits and applies complete in log order, apply only after commit, '
+      'nothing applied past a failed apply until it is rolled back), the record-shape ranges, and Termination as the absence of a reachable '
+      'dead end (a fixed point of all reconcile steps with an unfinished transaction, target connected, no rollback request enabled); '
+      'witnesses (applied, failed validation, one and ALL transactions rolled back) guard against vacuity; every SAT answer is replayed '
+      'natively against the real Reconciler.',
+      'Bounds: one target, 2 transactions (3 in the thorough tier), depth 16 (quick) / 24 (thorough), one crash per run; rollback order among '
+      'Complete events is checked through the cursor/consistency predicates, not as a separate history monitor; the v3 configuration and '
+      'mastership controllers are outside (configuration taken as SYNCHRONIZED in term 1 while connected); BuildTree cut. '
+      'Trusted: go/ssa, executor, z3, harness stores.',
+      'SSA symbolic execution -> transition relation, SMT bounded model checking (z3)', 'DESIGN.md 6/C20')
